@@ -208,7 +208,7 @@ var interestingLens = []int{15, 16, 17, 31, 32, 33, 63, 64, 65, 99, 100, 101, 12
 	2047, 2048, 2049, 4095, 4096, 4097, 8191, 8192, 8193, 9999, 10000, 10001, 16383, 16384, 16385, 32767, 32768, 32769, 65534, 65535}
 
 var hugeLens = []int{65536, 65537, 99999, 100000, 100001, 131071, 131072, 131073, 262143, 262144, 262145, 524287, 524288, 524289,
-	999995, 999996, 999997, 999998, 999999, 1000000, 1000001, 1048575, 1048576, 1048577}
+	999995, 999996, 999997, 999998, 999999, 1000000, 1000001, 1048575, 1048576, 1048577, 1048600, 1100000, 1200000}
 
 // length of a list or prefixed text: mostly tiny, sometimes around 255/256, rarely big.
 func (g *gen) length(label string, prefixMax uint64) int {
@@ -305,7 +305,7 @@ func (g *gen) unregisteredKey(label string, tb *Table, df *Field) string {
 		var k string
 		if tb.KeyType == "text" {
 			var b []byte
-			switch rapid.IntRange(0, 4).Draw(g.rt, label+".uk") {
+			switch rapid.IntRange(0, 5).Draw(g.rt, label+".uk") {
 			case 0:
 				b = []byte(strconv.Itoa(rapid.IntRange(0, 999).Draw(g.rt, label+".n")))
 			case 1:
@@ -315,6 +315,10 @@ func (g *gen) unregisteredKey(label string, tb *Table, df *Field) string {
 				b[i] ^= byte(1 << uint(rapid.IntRange(0, 7).Draw(g.rt, label+".bit")))
 			case 2:
 				b = []byte{}
+			case 5: // number syntax around a registered key: sign, blank, exponent ... (keys parsed as numbers)
+				r := tb.Order[rapid.IntRange(0, len(tb.Order)-1).Draw(g.rt, label+".num")]
+				b = []byte(r)
+				b[rapid.IntRange(0, len(b)-1).Draw(g.rt, label+".npos")] = rapid.SampledFrom([]byte{'+', '-', ' ', '.', 'e', 'x', '_', '\t'}).Draw(g.rt, label+".nch")
 			case 3:
 				r := tb.Order[rapid.IntRange(0, len(tb.Order)-1).Draw(g.rt, label+".pre")]
 				b = []byte(r[:rapid.IntRange(0, len(r)-1).Draw(g.rt, label+".cut")])
@@ -598,9 +602,9 @@ func GenValue(rt *rapid.T, typeName string, o GenOpts) (*Value, *Features) {
 // DefaultOpts: list-size policy per tier.
 func DefaultOpts(m Mode) GenOpts {
 	if Thorough() {
-		return GenOpts{Mode: m, MaxList: 70000, BigProb: 12, HugeProb: 60}
+		return GenOpts{Mode: m, MaxList: 70000, BigProb: 12, HugeProb: 25}
 	}
-	return GenOpts{Mode: m, MaxList: 70000, BigProb: 40, HugeProb: 600}
+	return GenOpts{Mode: m, MaxList: 70000, BigProb: 40, HugeProb: 100}
 }
 
 // MyTypes returns the types this shard is responsible for. Types are dealt to the
